@@ -11,6 +11,7 @@ from __future__ import annotations
 import dataclasses
 
 from nutree import Tree
+from nutree.node import Node
 from nutree.common import DictWrapper
 from nutree.typed_tree import TypedTree
 
@@ -154,6 +155,52 @@ class StrFlavour(Flavour):
 
 
 WORDS = ["a", "ab", "ba", "b", "aa", "bab", "A", "abc"]
+
+
+class _DisplayNode(Node):
+    """a node class of the user (Tree(factory=...)) whose `name` is a display text, not the data"""
+
+    @property
+    def name(self):
+        return f"{self.data} ({len(self.children)})"
+
+
+class FactoryFlavour(StrFlavour):
+    """string data in a tree with a custom node factory"""
+
+    def new_tree(self, name=None):
+        return Tree(name, factory=_DisplayNode)
+
+
+class FreshStrFlavour(StrFlavour):
+    """multi-character strings; with fresh = True every request hands out a NEW, equal string object (a tree that
+    was loaded from a file or built from computed labels: equal data, different objects)"""
+    fresh = False
+
+    def _make(self, d):
+        return "n-" + NAMES[d - 1]
+
+    def data(self, d):
+        if self.fresh:
+            return "".join(("n-", NAMES[d - 1]))
+        return super().data(d)
+
+    def data_index(self, obj):
+        if isinstance(obj, str) and obj.startswith("n-") and obj[2:] in NAMES:
+            return NAMES.index(obj[2:]) + 1
+        return -1
+
+
+class EmptyKindFlavour(StrFlavour):
+    """string data; typed trees whose second kind is the empty string (a legal kind: any str but ANY_KIND)"""
+
+    def kind(self, k):
+        return "" if k == 2 else super().kind(k)
+
+    def kind_id(self, node):
+        if self.typed and node.kind == "":
+            return 2
+        return super().kind_id(node)
 
 
 class WordFlavour(Flavour):
@@ -456,6 +503,9 @@ def make(name, typed=False) -> Flavour:
         "str": StrFlavour,
         "int": IntFlavour,
         "words": WordFlavour,
+        "kstr": EmptyKindFlavour,
+        "factory": FactoryFlavour,
+        "nstr": FreshStrFlavour,
         "ustr": UnicodeFlavour,
         "estr": EmptyStrFlavour,
         "str0": FalsyIdFlavour,
